@@ -104,6 +104,7 @@ def selectors_for(rows, cols, thorough=False):
 
 
 _G = {}
+_DECOYS = {}
 
 
 def well_name(rows, cols, r, c):
@@ -113,6 +114,21 @@ def well_name(rows, cols, r, c):
 def judge(pp, plate, rows, cols, labeling, sel):
     """-> (violation or None, class)"""
     kind_, wells, shape = selectors.resolve(rows, cols, sel)
+    # what a selector means on THIS plate does not depend on plates asked before: the same selector is first put to a decoy of
+    # the same shape whose labels are the plate's labels in reverse order (part of the judged and replayed case)
+    key = (tuple(rows), tuple(cols))
+    if key not in _DECOYS:
+        try:
+            _DECOYS[key] = pp.Plate('decoy', '1 mL', rows=list(reversed(rows)), columns=list(reversed(cols)))
+        except Exception:  # noqa
+            _DECOYS[key] = None
+    if _DECOYS[key] is not None:
+        try:
+            import copy as _copy
+            _DECOYS[key][_copy.deepcopy(sel)]
+        except Exception:  # noqa
+            pass
+    original = repr(sel) if isinstance(sel, list) else None
     if isinstance(sel, list):
         # what a list selects does not depend on what was asked before: every list is preceded by a list that is refused at its
         # SECOND element (its first element is valid) - part of the judged (and replayed) case
@@ -127,6 +143,11 @@ def judge(pp, plate, rows, cols, labeling, sel):
         got = numpy.asarray(view.get())
         names = [w.name for w in got.flatten()]
         outcome = ('ok', names, tuple(got.shape), int(view.size), tuple(view.shape))
+        if original is not None and repr(sel) != original:
+            return V(f"Plate.__getitem__ | selector-argument-changed | form=list,labeling={labeling}",
+                     f"plate {len(rows)}x{len(cols)}: plate[s] with s = {original} rewrote the caller's list to {sel!r}",
+                     {'rows': rows, 'cols': cols, 'labeling': labeling, 'sel': original}, original, repr(sel)), \
+                (labeling, 'list', kind_, 'argument-changed')
         if isinstance(sel, list) and kind_ == selectors.OK:
             # a list selects its wells in the order given - also after the selection has been used
             try:
